@@ -379,6 +379,21 @@ class Machine:
                         f"the given-up node had {id1} (id was free)")
             self.pool.append(second)
             self.lab.tag("recreated-from-permuted-set")
+        elif kind == "use":
+            # read-only use of a held tree (a Tree built on it, xpath search and match, traversal, comparison):
+            # nothing of it may keep the nodes alive once the program drops them
+            from pyoak.match.xpath import ASTXpath
+
+            x = self.sel(o[1])
+            if x is None:
+                return
+            x.to_tree()
+            xp = ASTXpath("//" + type(x).__name__)
+            list(xp.findall(x))
+            xp.match(x, x)
+            list(x.dfs())
+            x == x  # noqa: B015
+            self.lab.tag("read-only-use-before-drop")
         elif kind == "drop":
             if not self.pool:
                 return
@@ -526,6 +541,7 @@ def st_program(ctx: Ctx):
         "detach_self": st.tuples(st.just("detach_self"), sel).map(list),
         "roundtrip": st.tuples(st.just("roundtrip"), sel, small).map(list),
         "drop": st.tuples(st.just("drop"), sel).map(list),
+        "use": st.tuples(st.just("use"), sel).map(list),
     }
     again = st.sampled_from(["detach_self", "detach", "replace_ok", "replace_fail", "roundtrip", "dc_replace"])
     macro = st.tuples(sel, st.sampled_from(["detach_self", "detach"]), again, small).map(
